@@ -3,11 +3,14 @@
 import json, os
 ROOT = os.path.dirname(os.path.dirname(os.path.abspath(__file__)))
 BASE_NOTE = ("Trusted: Lean 4.33 kernel; axioms limited to propext/Classical.choice/Quot.sound (audited per theorem on every run); "
-             "the hand-written model (lean/Pds/Model) is tied to /repo only by differential testing through harness/ (scripted hasher + RNG, "
-             "same ops on real crate and compiled model) and by tools/translate.py for constants; std hashing, rand decoding, fixedbitset, "
-             "succinct, serde_json and libm are modelled, not verified.")
-T = "Lean 4 theorems over a hand-written model + differential correspondence (real crate vs compiled model) + trace oracle"
-TS = "Lean 4 theorems (deterministic/combinatorial core) + differential correspondence + sampling experiment on the real crate as failing-input search"
+             "the hand-written model (lean/Pds/Model) is tied to /repo (a) by differential testing through harness/ (scripted hasher + RNG, "
+             "same ops on real crate and compiled model), (b) by tools/translate.py for constants and tables, and (c) for the functions listed in "
+             "DESIGN.md 3.5 by translating their bodies from the current source (tools/rustkern.py, tools/rustflow.py) and proving the result equal to "
+             "the model's functions (obligations Tie.*); a translated function that is rewritten breaks (c) even when harmless "
+             "(reported with no-failing-input-found). std hashing, rand decoding, fixedbitset, "
+             "succinct, serde_json and libm are modelled, not verified; integer wrap-around is not represented in the translation.")
+T = "Lean 4 theorems over a hand-written model + tie theorems for function bodies translated from the current source + differential correspondence (real crate vs compiled model) + trace oracle"
+TS = "Lean 4 theorems (deterministic/combinatorial core) + tie theorems for function bodies translated from the current source + differential correspondence + sampling experiment on the real crate as failing-input search"
 CLAIMS = {
  "C01": dict(text="Full for the model: no-false-negative theorems for Bloom (bit monotonicity), cuckoo (multiset refinement, robust to failed inserts/unions and deletes of present elements), quotient (set refinement) and the list-as-set reference; union contains both operands.", design="7/C01", technique=T),
  "C02": dict(text="Full for the model: for every w,d>=1, counter maximum, hasher and non-overflowing history of add_n/merge/clear: true weight <= query_point <= stream total, add returns the new query_point, single-element streams exact, indices in range, overflow is an error never a wrap.", design="7/C02", technique=T),
